@@ -24,12 +24,12 @@ EXTENDS Integers, Sequences, FiniteSets, TLC, Json
 CONSTANTS Roles, Dtypes, Layouts, Fronts
 
 \* roles that exist on a front end
-RoleOn(r, f) == CASE r \in {"set_rhs", "set_matrix", "rand_coef"} -> f \in {"ro", "dro"}
+RoleOn(r, f) == CASE r \in {"set_rhs", "set_matrix", "rand_coef", "quad_set"} -> f \in {"ro", "dro"}
                   [] r \in {"expt_rhs", "prob_rhs"} -> f = "dro"
                   [] OTHER -> TRUE
 \* layouts that need two dimensions
 TwoDim(l) == l \in {"fortran", "transposed"}
-MatrixRole(r) == r \in {"matmul_left", "matmul_right", "set_matrix", "rand_coef"}
+MatrixRole(r) == r \in {"matmul_left", "matmul_right", "set_matrix", "rand_coef", "quad_matrix", "quad_set"}   \* the last two: a positive semidefinite matrix handed to quad()
 \* numpy refuses to create these: not cases
 Exists(d, l, w) == ~(l = "broadcast" /\ w)          \* np.broadcast_to views are read-only
 
